@@ -20,7 +20,7 @@ type c16 struct{}
 func init() {
 	register(c16{})
 	expectedProbes["C16"] = []string{"document-mutated-after-load", "root-switched-at-same-location", "call-under-refuse-burst", "meta-schema-expanded-between", "fresh-process-reference", "history>=6",
-		"external-document-reloaded", "entry:ExpandSpec", "entry:ExpandSchema", "entry:ResolveRefWithBase"}
+		"external-document-reloaded", "ref-to-built-in-meta-schema", "entry:ExpandSpec", "entry:ExpandSchema", "entry:ResolveRefWithBase"}
 	SingleOpMain = singleOpMain
 }
 
@@ -32,6 +32,43 @@ func (c16) Rule() string {
 		"under a burst of refuse faults. Oracle: the digest (error, result bytes, request log) of the i-th call equals the digest of the same call executed as the FIRST call of a fresh process on the world as it " +
 		"stands at step i (map-order decisions are keyed per operation, so the comparison is byte-exact); caller options unchanged; the meta-schemas expand identically at the end of every history with a loader that " +
 		"has no such documents. Non-trivial: the history has a call after a mutation or root switch that requests a document; distinct by (sequence of entry kinds, mutation?, switch?, burst?)."
+}
+
+var metaRefs = []string{
+	"http://json-schema.org/draft-04/schema#", "http://json-schema.org/draft-04/schema", "http://json-schema.org/draft-04/schema#/definitions/positiveInteger",
+	"http://json-schema.org/draft-04/schema#/properties/title", "http://swagger.io/v2/schema.json#/definitions/info", "http://swagger.io/v2/schema.json#", "http://swagger.io/v2/schema.json#/definitions/schema/properties/not",
+}
+
+// injectMetaRefs turns some leaf schemas into references to the built-in meta-schemas (whole
+// documents and members), which every call resolves from the package-level cache.
+func injectMetaRefs(w *model.World, r *sim.RNG) {
+	var visit func(v interface{})
+	visit = func(v interface{}) {
+		switch c := v.(type) {
+		case map[string]interface{}:
+			if t, _ := c["type"].(string); t == "string" {
+				if _, isLeaf := c["description"]; isLeaf && len(c) <= 3 && r.Intn(4) == 0 {
+					if _, isParam := c["in"]; !isParam {
+						for k := range c {
+							delete(c, k)
+						}
+						c["$ref"] = metaRefs[r.Intn(len(metaRefs))]
+						return
+					}
+				}
+			}
+			for _, k := range keys(c) {
+				visit(c[k])
+			}
+		case []interface{}:
+			for _, x := range c {
+				visit(x)
+			}
+		}
+	}
+	for _, u := range keys(w.Docs) {
+		visit(w.Docs[u])
+	}
 }
 
 func mutateDoc(d interface{}, tag string) interface{} {
@@ -71,7 +108,11 @@ func (c16) Gen(r *sim.RNG, tier string, idx int) *Scenario {
 			cfg.NDocs = 3
 		}
 		cfg.MaxDepth = 1 + r.Intn(2)
-		sc.Worlds = append(sc.Worlds, gen.Generate(r, cfg))
+		w := gen.Generate(r, cfg)
+		if r.Bool(0.5) {
+			injectMetaRefs(w, r)
+		}
+		sc.Worlds = append(sc.Worlds, w)
 	}
 	n := 2 + r.Intn(6)
 	if tier == "thorough" {
@@ -95,13 +136,14 @@ func (c16) Gen(r *sim.RNG, tier string, idx int) *Scenario {
 		case x < 3:
 			sc.Ops = append(sc.Ops, Op{Entry: []string{"MetaSwagger", "MetaDraft04", "MetaDraft04"}[r.Intn(3)], World: wi})
 		case x < 8:
-			sc.Ops = append(sc.Ops, Op{Entry: "ExpandSpec", World: wi, Opts: Opts{Skip: r.Bool(0.2), Continue: r.Bool(0.2), Absolute: r.Bool(0.3)}})
+			sc.Ops = append(sc.Ops, Op{Entry: "ExpandSpec", World: wi, Base: RandBase(r, w), Opts: Opts{Skip: r.Bool(0.2), Continue: r.Bool(0.2), Absolute: r.Bool(0.3)}})
 		case x < 10:
 			els := elementOps(w, r, 0, false)
 			if len(els) > 0 {
 				op := els[r.Intn(len(els))]
 				op.World = wi
 				op.Cache = "nil"
+				op.Base = RandBase(r, w)
 				sc.Ops = append(sc.Ops, op)
 			}
 		default:
@@ -277,6 +319,9 @@ func (c16) Run(sc *Scenario) *Verdict {
 			return v
 		}
 		got := digestOp(res)
+		if strings.Contains(string(res.Raw), "json-schema.org") || strings.Contains(string(res.Raw), "swagger.io") {
+			v.probe("ref-to-built-in-meta-schema")
+		}
 		for _, q := range res.Log.Reqs {
 			if loaded[q.URL] {
 				v.probe("external-document-reloaded")
